@@ -25,7 +25,10 @@ type Server struct {
 	H       *server.Hertz
 	Addr    string
 	Netpoll bool
-	runErr  chan error
+	// LastLocalAddr is the client-side address of the most recent Exchange connection
+	// (= the RemoteAddr the server sees), for attributing server-side events.
+	LastLocalAddr string
+	runErr        chan error
 }
 
 func freePort() int {
@@ -88,6 +91,7 @@ func (s *Server) Exchange(frags [][]byte, gap time.Duration, timeout time.Durati
 		return nil, false, err
 	}
 	defer c.Close()
+	s.LastLocalAddr = c.LocalAddr().String()
 	if tc, ok := c.(*net.TCPConn); ok {
 		tc.SetNoDelay(true)
 	}
